@@ -10,9 +10,12 @@ Model of the policy-metadata mutators of gittuf (property C13).
 The Go mutators work *in place* and return an error; the model returns the pair
 (error class, state afterwards) so that "a refused edit leaves the metadata
 unchanged" can be stated.  The control flow of the Go code is followed check by
-check (same order, same early exits), including what is not intended:
-`AddRule`/`UpdateRule` compare the threshold with the *length of the argument
-list* (duplicates included) — finding F10.
+check (same order, same early exits).  `AddRule`/`UpdateRule` (both schema
+versions) compare the threshold with the number of *distinct* principal ids
+handed in (`set.NewSetFromItems(ids...).Len()`, since commit 43f8e67); before
+that commit they compared with the length of the argument list, duplicates
+included (finding F10, repaired) — that older code is kept at the end of the
+rule-file section as `applyF10`, for the driver only.
 Core Lean only (linked into the driver executable).
 -/
 namespace Gittuf.Meta
@@ -109,12 +112,15 @@ def defined (m : TargetsMeta) (id : String) : Bool := m.ids.contains id
 def fail (m : TargetsMeta) (e : Err) : Res TargetsMeta := { err := some e, st := m }
 def done (m : TargetsMeta) : Res TargetsMeta := { err := none, st := m }
 
-/-- the four argument checks shared by AddRule and UpdateRule (targets.go:74-92 = 114-132) -/
+/-- the four argument checks shared by AddRule and UpdateRule (v02 targets.go:74-92 = 114-132,
+v01 targets.go:69-87 = 108-126). The last one counts the *distinct* ids,
+`set.NewSetFromItems(authorizedPrincipalIDs...).Len() < threshold`: exactly the size of the
+principal set the rule is going to store (`dedup ids`). -/
 def checkRuleArgs (m : TargetsMeta) (name : String) (ids : List String) (thr : Int) : Option Err :=
   if reserved name then some .reservedPrefix
   else if !(ids.all m.defined) then some .principalNotFound
   else if thr ≤ 0 then some .invalidThreshold
-  else if (ids.length : Int) < thr then some .cannotMeetThreshold   -- F10: list length, not set size
+  else if ((dedup ids).length : Int) < thr then some .cannotMeetThreshold
   else none
 
 /-- `AddRule` (targets.go:73-110) -/
@@ -227,6 +233,35 @@ def TargetsMeta.apply (v : Ver) (m : TargetsMeta) : TOp → Res TargetsMeta
 /-- the object after a sequence of edits, accepted or refused -/
 def TargetsMeta.run (v : Ver) (m : TargetsMeta) (ops : List TOp) : TargetsMeta :=
   ops.foldl (fun m o => (m.apply v o).st) m
+
+/-! ### the code before commit 43f8e67 (finding F10, repaired)
+
+No theorem is about these definitions. The driver steps with `applyF10` instead of `apply` only
+when the orchestrator lists F10 as an *open* finding (= the old code is the expected variant). -/
+
+/-- the argument checks as they were: the threshold is compared with `len(authorizedPrincipalIDs)` -/
+def TargetsMeta.checkRuleArgsF10 (m : TargetsMeta) (name : String) (ids : List String) (thr : Int) : Option Err :=
+  if reserved name then some .reservedPrefix
+  else if !(ids.all m.defined) then some .principalNotFound
+  else if thr ≤ 0 then some .invalidThreshold
+  else if (ids.length : Int) < thr then some .cannotMeetThreshold
+  else none
+
+/-- `apply` with the old argument checks; everything after the checks is the same code -/
+def TargetsMeta.applyF10 (v : Ver) (m : TargetsMeta) : TOp → Res TargetsMeta
+  | .addRule n ids pats t =>
+    match m.checkRuleArgsF10 n ids t with
+    | some e => m.fail e
+    | none =>
+      if m.rules.isEmpty then m.fail .panic
+      else
+        let r : Rule := { name := n, patterns := pats, principals := dedup ids, threshold := t, terminating := false }
+        TargetsMeta.done { m with rules := m.rules.dropLast ++ [r, allowRule] }
+  | .updateRule n ids pats t =>
+    match m.checkRuleArgsF10 n ids t with
+    | some e => m.fail e
+    | none => TargetsMeta.done { m with rules := TargetsMeta.updateGo n pats ids t m.rules ++ [allowRule] }
+  | op => m.apply v op
 
 /-! ## root metadata -/
 
